@@ -342,7 +342,7 @@ class Replayer:
         out = {}
         out["area"] = float(obj)
         out["kind"] = kind_of(obj)
-        out["len"] = tuple(round(float(j), 9) for j in obj.jordans)
+        out["len"] = tuple(sorted(round(float(j), 9) for j in obj.jordans))  # order of curves is representation
         b = obj.box()
         out["box"] = tuple(round(float(v), 9) for v in (b.lowpt[0], b.lowpt[1], b.toppt[0], b.toppt[1]))
         out["m10"] = float(w.sp.IntegrateShape.polynomial(obj, 1, 0))
@@ -355,6 +355,8 @@ class Replayer:
 
     def c10(self, obj, rec):
         word = tuple(rec.get("frame", ()))
+        if kind_of(obj) not in "SCD":
+            return []  # a wrong singleton is reported by the comparison with the model
         try:
             live1 = self.battery(obj, word)
             fresh = self.battery(_copy.deepcopy(obj), word)
